@@ -180,7 +180,7 @@ def atom_row(d):
             None if d.get('charge') is None else float(d['charge']), None if d.get('mass') is None else float(d['mass']))
 
 
-def reread(wd, text):
+def reread(wd, text, defines=()):
     """the file through polyply's two readers"""
     import vermouth.forcefield
     from polyply import MetaMolecule
@@ -189,7 +189,7 @@ def reread(wd, text):
     with open(itp, 'w') as fh:
         fh.write(text)
     with open(os.path.join(wd, 'back.top'), 'w') as fh:
-        fh.write('#include "back.itp"\n[ system ]\nx\n[ molecules ]\nmol 1\n')
+        fh.write(''.join(f'#define {k} {v}\n' for k, v in defines) + '#include "back.itp"\n[ system ]\nx\n[ molecules ]\nmol 1\n')
     sink = io.StringIO()
     with contextlib.redirect_stderr(sink), contextlib.redirect_stdout(sink):
         top = Topology.from_gmx_topfile(os.path.join(wd, 'back.top'), name='x')
@@ -204,7 +204,7 @@ def res_graph(meta):
     return nodes, edges
 
 
-def judge(g, built, text, wd):
+def judge(g, built, text, wd, defines=()):
     """independent of the model: compare the re-read molecule and residue graph with a molecule
     built separately by the harness. returns list of (message, finding)"""
     bad = []
@@ -212,7 +212,7 @@ def judge(g, built, text, wd):
     order = sorted(mol.nodes, key=lambda n: mol.nodes[n].get('atomid', float('inf')))
     corr = {n: i for i, n in enumerate(order)}
     try:
-        top_mol, itp_mol = reread(wd, text)
+        top_mol, itp_mol = reread(wd, text, defines)
     except BaseException as exc:  # noqa
         return [(f"the written file cannot be read back: {type(exc).__name__}: {exc}", None)]
     for what, back in (('Topology.from_gmx_topfile', top_mol), ('MetaMolecule.from_itp', itp_mol)):
@@ -452,6 +452,7 @@ def run(ctx):
             ctx.broken.append('correspondence:gen_params file / re-read vs model/Itp.v')
         reader_cases(ctx, wd)
         log_entry_cases(ctx, wd, ctx.n(10, 80))
+        symbolic_cases(ctx, wd, ctx.n(6, 40))
 
 
 def log_entry_cases(ctx, wd, n, extra=()):
@@ -495,6 +496,43 @@ def log_entry_cases(ctx, wd, n, extra=()):
             continue
         for msg, finding in judge(g, built, out, wd):
             ctx.violation('spec', f"C11 fails on the implementation: {msg}", dict(rep, failure=msg), finding=finding)
+
+
+def symbolic_cases(ctx, wd, n, extra=()):
+    """parameters given as force-field macros (GROMOS style: 'gb_18'): the file carries the macro names, and reading it back
+    -- also through a topology that defines those macros, as a force-field include does -- yields the parameters that were
+    written; resolving macros is a later, separate step (Topology.preprocess)"""
+    rng = ctx.rng
+    todo = list(extra)
+    for _ in range(n):
+        todo.append({'nres': rng.randint(2, 4), 'defined': rng.random() < 0.8, 'angle': rng.random() < 0.6, 'pre': rng.random() < 0.3})
+    for case in todo:
+        lines = ['[ moleculetype ]', 'AAA 1', '[ atoms ]', '1 P1 1 AAA A1 1 0.0 72', '2 P2 1 AAA A2 2 0.5 72', '3 P3 1 AAA A3 3 0.0 36',
+                 '[ bonds ]', 'A1 A2 2 gb_18', 'A2 A3 2 gb_21']
+        if case['angle']:
+            lines += ['[ angles ]', 'A1 A2 A3 2 ga_15']
+        lines += ['[ link ]', 'resname "AAA"', '[ bonds ]', 'A3 +A1 2 gb_27']
+        text = '\n'.join(lines) + '\n'
+        n_ = case['nres']
+        g = {'nres': n_, 'shape': 'path', 'resnames': ['AAA'] * n_, 'edges': [(i, i + 1) for i in range(n_ - 1)], 'r0': 1,
+             'keys': list(range(n_)), 'order': list(range(n_)), 'edge_order': list(range(n_ - 1)), 'flip': [False] * (n_ - 1)}
+        built = ffgen.run_pipeline(text, g)
+        ctx.case(('symbolic', json.dumps(case, sort_keys=True)), nontrivial='error' not in built, sample=case)
+        ctx.feature('parameters_given_as_macros' + ('_read_back_through_a_topology_that_defines_them' if case['defined'] else ''))
+        if 'error' in built:
+            ctx.note(f"pipeline rejects symbolic parameters: {built['error'][:200]}")
+            continue
+        write_inputs(wd, text, g)
+        out, handed, err = call_gen_params(wd, 'seq', g, preexisting=case['pre'])
+        rep = {'symbolic': case}
+        if err is not None or out is None or out == 'stale content\n':
+            ctx.violation('spec', f"mapping and link application succeed but gen_params wrote no file ({err or 'no exception'})", rep)
+            continue
+        defines = [('gb_18', '0.1530 7.1500e+06'), ('gb_21', '0.1090 1.2300e+07'), ('ga_15', '111.0 530.0'), ('gb_27', '0.1430 8.1800e+06')] \
+            if case['defined'] else ()
+        for msg, finding in judge(g, built, out, wd, defines=defines):
+            ctx.violation('spec', f"C11 fails on the implementation: {msg}" + (' (read back through a topology that defines the macros)' if defines else ''),
+                          dict(rep, failure=msg), finding=finding)
 
 
 def reader_cases(ctx, wd):
@@ -563,6 +601,12 @@ def replay(ctx, data):
             print('replay: from_gmx_topfile', res_graph(top_mol), ' from_itp', res_graph(itp_mol))
         return 0
     print(json.dumps(data, indent=1, default=str)[:3000])
+    if 'symbolic' in data:
+        before = len(ctx.violations)
+        with systems.Workdir() as wd:
+            symbolic_cases(ctx, wd, 0, extra=[data['symbolic']])
+        print('replay:', ctx.violations[-1]['what'][:400] if len(ctx.violations) > before else 'file reads back as written')
+        return 1 if len(ctx.violations) > before else 0
     if 'log_entries' in data:
         before = len(ctx.violations)
         with systems.Workdir() as wd:
